@@ -135,6 +135,9 @@ void record(const std::string & inst, bool nontrivial, uint64_t key, F && sample
 // bulk accounting for tight enumeration loops (cases are distinct by construction)
 void record_bulk(const std::string & inst, uint64_t evaluations, uint64_t distinct_nontrivial);
 void write_stats();
+// E7: running digest of every observable result of an instantiation (values read, dump bytes);
+// compared across build configurations by the driver
+void digest(const std::string & inst, const void * p, size_t n);
 
 // ---------------------------------------------------------------- current case / failure
 struct CaseScope {
